@@ -39,13 +39,13 @@ RoundTrip == DigitsOf(vcell, Len(vds)) = vds
 CONSTANT CheckPairs
 
 StrOf(i)  == [k \in 1..M |-> (i \div (NExp ^ (M - k))) % NExp]   \* digit string of subinterval i
-ByIndex   == [i \in 0 .. (NExp ^ M - 1) |-> CellOf(StrOf(i))]    \* constant: evaluated once
+ByIndex   == IF CheckPairs THEN [i \in 0 .. (NExp ^ M - 1) |-> CellOf(StrOf(i))] ELSE <<>>    \* constant: evaluated once
 
 (* C07: the cells of all strings are pairwise distinct and fill the grid *)
-Bijective == Cardinality({ByIndex[i] : i \in DOMAIN ByIndex}) = NExp ^ M
+Bijective == CheckPairs => Cardinality({ByIndex[i] : i \in DOMAIN ByIndex}) = NExp ^ M
 
 (* C08: consecutive subintervals are face-adjacent *)
-Consecutive ==
+Consecutive == CheckPairs =>
   \A i \in 0 .. (NExp ^ M - 2) :
      LET c1 == ByIndex[i]  c2 == ByIndex[i + 1] IN
        /\ Cardinality({k \in 1..N : c1[k] # c2[k]}) = 1
@@ -54,7 +54,9 @@ Consecutive ==
 (* C08: for ANY points x' in subinterval i, x'' in subinterval j with |x'-x''| >= 2^-(N M):    *)
 (* |x'-x''| > (|i-j|-1) 2^-(N M), so it suffices that                                          *)
 (*   ||c_i - c_j||^(2N) <= (4(N+3))^N * max(|i-j|-1, 1)^2      (cell units)                      *)
-Hoelder ==
+\* (TLC evaluates constant-level definitions eagerly at start-up: without the guard the quadratic pair check would run - for
+\*  minutes or hours - even in configurations that do not ask for it)
+Hoelder == CheckPairs =>
   \A i \in 0 .. (NExp ^ M - 1) : \A j \in (i + 1) .. (NExp ^ M - 1) :
      LET c1 == ByIndex[i]  c2 == ByIndex[j]
          d2 == FoldFunction(+, 0, [k \in 1..N |-> (c1[k] - c2[k]) * (c1[k] - c2[k])])
